@@ -18,9 +18,9 @@ fn mk_counts(reader: Reader, cip: u64, content_count: u32, cluster_count: u32, t
         magic: PackKind::Content, app_vendor_id: VendorId::from([0u8; 4]), major_version: 0, minor_version: 2,
         uuid: uuid::Uuid::from_bytes([1u8; 16]), flags: 0, file_size: Size::new(cip + 37 + 64), check_info_pos: Offset::new(cip) };
     let header = ContentPackHeader::new(PackFreeData::from([0u8; 24]), Offset::new(table_at), ClusterCount::from(cluster_count), Offset::new(table_at), ContentCount::from(content_count));
-    let content_infos = ArrayReader::new_memory_from_reader(&reader, Offset::new(table_at), Count::from(content_count)).unwrap();
+    let content_infos = ArrayReader::new_memory_from_reader(&reader, Offset::new(if table_at == 0 { 60 } else { table_at }), Count::from(content_count)).unwrap();
     // an empty table: just its checksum
-    let cluster_ptrs = ArrayReader::new_memory_from_reader(&reader, Offset::new(if table_at == 0 { 0 } else { 28 }), Count::from(0u32)).unwrap();
+    let cluster_ptrs = ArrayReader::new_memory_from_reader(&reader, Offset::new(if table_at == 0 { 60 } else { 28 }), Count::from(0u32)).unwrap();
     ContentPack {
         pack_header, header, content_infos, cluster_ptrs,
         cluster_cache: Mutex::new(LruCache::with_hasher(NonZeroUsize::new(1).unwrap(), FxBuildHasher::default())),
@@ -29,6 +29,7 @@ fn mk_counts(reader: Reader, cip: u64, content_count: u32, cluster_count: u32, t
 }
 
 fn mk(reader: Reader, cip: u64) -> ContentPack {
+    // empty tables: their checksum sits at 60 (see check_range)
     mk_counts(reader, cip, 0, 0, 0)
 }
 
